@@ -7,7 +7,7 @@ from common import run_driver
 
 RULE = ('single-rooted random DAGs (n <= 12; 25 thorough) x non-empty sequences of their nodes (length 1-9, with and without repeated '
         'ids; exhaustive: all sequences of length <= 4 over 3 ids on fixed DAGs) x {edge-distance sorting, IC sorting with random / '
-        'monotone / all-zero IC} x {graph, ontology} as hierarchy x {TermId, Identified} inputs; several calls on ONE sorter instance '
+        'monotone / all-zero IC} x {graph, ontology} as hierarchy x {TermId, Identified, the two mixed} inputs; several calls on ONE sorter instance '
         '(same id set with different repeat counts, same input twice). Checked: result is a permutation of 0..n-1 (statement '
         'itself), (0,) for a single item, input untouched (snapshot), identical answers for TermId/Identified and for a second call; '
         'when the merge trace is observable (Node.make_tagged_node / Node.merge_nodes wrapped from outside) the exact tuple is '
@@ -102,6 +102,11 @@ def run_group(ctx, edges, kind, ic, hier_kind, inputs, stream):
                     res2 = tuple(int(i) for i in sorter.argsort(tids))
                     idf = [gl.identified(TermId.from_curie(x)) for x in ids]
                     res3 = tuple(int(i) for i in sorter.argsort(tuple(idf)))
+                    # a sequence that mixes the two accepted item kinds (either kind first)
+                    mixed_a = [t if k % 2 == 0 else i for k, (t, i) in enumerate(zip(tids, idf))]
+                    mixed_b = [i if k % 2 == 0 else t for k, (t, i) in enumerate(zip(tids, idf))]
+                    res4 = tuple(int(i) for i in sorter.argsort(mixed_a))
+                    res5 = tuple(int(i) for i in sorter.argsort(tuple(mixed_b)))
                     if sorted(res) != list(range(n)):
                         problem = f'not a permutation of 0..{n - 1}: {res}'
                     elif n == 1 and res != (0,):
@@ -112,6 +117,8 @@ def run_group(ctx, edges, kind, ic, hier_kind, inputs, stream):
                         problem = f'second call gives {res2}, first gave {res}'
                     elif res3 != res:
                         problem = f'Identified input gives {res3}, TermId input gives {res}'
+                    elif res4 != res or res5 != res:
+                        problem = f'mixed TermId/Identified input gives {res4} / {res5}, TermId input gives {res}'
                 except Exception as e:  # noqa
                     problem = f'raises {type(e).__name__}: {e}'
                     trace = []
